@@ -104,7 +104,12 @@ def h_total(name, options):
             same = S.and_(S.eq(ra.year, rb.year), S.eq(ra.month, rb.month), S.eq(ra.day, rb.day), S.eq(ra.hour, rb.hour),
                           S.eq(ra.minute, rb.minute), S.eq(ra.second, rb.second), S.eq(ra.microsecond, rb.microsecond))
             ctx.check(same, "the same call gives a different datetime the second time", key="state-value:" + name)
-            oa, ob = ra.utcoffset(), rb.utcoffset()
+            def _off(x):
+                try:
+                    return x.utcoffset()
+                except ValueError:        # an offset of 24 h or more: the object exists but cannot report it
+                    return None
+            oa, ob = _off(ra), _off(rb)
             ctx.check((oa is None) == (ob is None) and (oa is None or S.eq(oa.days * 86400 + oa.seconds, ob.days * 86400 + ob.seconds)),
                       "the same call gives a different UTC offset the second time (state left behind)", key="state-offset:" + name)
         return a[0]
